@@ -594,6 +594,23 @@ func (w *Writer) WriteCompressed(refs []Reference, objects ...Object) error {
 		return nil
 	}
 
+	// Everything which can be wrong with the arguments is found before the
+	// first change is made, so that a failed call leaves no cross-reference
+	// entries (pointing into an object stream which is never written) behind:
+	// references which are in use or listed twice, and objects which cannot be
+	// formatted.
+	seen := make(map[uint32]bool, len(refs))
+	for i, ref := range refs {
+		if _, used := w.xref[ref.Number()]; used || seen[ref.Number()] {
+			return fmt.Errorf("Writer.WriteCompressed: %w", errDuplicateRef)
+		}
+		seen[ref.Number()] = true
+		err := checkFormat(objects[i], w.outputOptions)
+		if err != nil {
+			return fmt.Errorf("Writer.WriteCompressed: %w", err)
+		}
+	}
+
 	if !w.outputOptions.HasAny(optObjStm) {
 		// If object streams are disabled, write the objects directly.
 		for i, obj := range objects {
@@ -608,22 +625,28 @@ func (w *Writer) WriteCompressed(refs []Reference, objects ...Object) error {
 	// The reader refuses object streams with more than maxObjStmObjects
 	// members, so larger sets are split over several object streams.
 	for len(objects) > maxObjStmObjects {
-		err := w.WriteCompressed(refs[:maxObjStmObjects], objects[:maxObjStmObjects]...)
+		err := w.writeObjStm(refs[:maxObjStmObjects], objects[:maxObjStmObjects])
 		if err != nil {
 			return err
 		}
 		refs, objects = refs[maxObjStmObjects:], objects[maxObjStmObjects:]
 	}
+	return w.writeObjStm(refs, objects)
+}
 
-	sRef := w.Alloc()
-	for i, ref := range refs {
-		err := w.setXRef(ref, &xRefEntry{InStream: sRef, Pos: int64(i)})
-		if err != nil {
-			return fmt.Errorf("Writer.WriteCompressed: %w", err)
+// writeObjStm writes one object stream.  The arguments have been checked by
+// WriteCompressed.
+func (w *Writer) writeObjStm(refs []Reference, objects []Object) error {
+	// Numbers chosen by the caller are set aside first: neither the object
+	// stream itself nor a reference made while formatting may take one.
+	for _, ref := range refs {
+		if w.nextRef <= ref.Number() {
+			w.nextRef = ref.Number() + 1
 		}
 	}
 
-	// get the offsets
+	// All members are formatted before the first cross-reference entry is
+	// made: if this fails nothing has changed.
 	N := len(objects)
 	head := &bytes.Buffer{}
 	body := &bytes.Buffer{}
@@ -635,18 +658,23 @@ func (w *Writer) WriteCompressed(refs []Reference, objects ...Object) error {
 			return err
 		}
 
+		err = Format(body, w.outputOptions, objects[i])
+		if err != nil {
+			return err
+		}
 		if i < N-1 {
-			// We buffer the first N-1 object to determine the starting offsets
-			// within the stream.  To reduce memory use, the last object is
-			// written separately at the end without buffering.
-			err = Format(body, w.outputOptions, objects[i])
-			if err != nil {
-				return err
-			}
 			err = body.WriteByte('\n')
 			if err != nil {
 				return err
 			}
+		}
+	}
+
+	sRef := w.Alloc()
+	for i, ref := range refs {
+		err := w.setXRef(ref, &xRefEntry{InStream: sRef, Pos: int64(i)})
+		if err != nil {
+			return fmt.Errorf("Writer.WriteCompressed: %w", err)
 		}
 	}
 
@@ -657,6 +685,10 @@ func (w *Writer) WriteCompressed(refs []Reference, objects ...Object) error {
 	}
 	streamBody, err := w.OpenStream(sRef, dict, FilterFlate{})
 	if err != nil {
+		// the object stream is not written: its members have no entries
+		for _, ref := range refs {
+			delete(w.xref, ref.Number())
+		}
 		return err
 	}
 
@@ -666,12 +698,6 @@ func (w *Writer) WriteCompressed(refs []Reference, objects ...Object) error {
 	}
 
 	_, err = streamBody.Write(body.Bytes())
-	if err != nil {
-		return err
-	}
-
-	// write the last object separately
-	err = Format(streamBody, w.outputOptions, objects[N-1])
 	if err != nil {
 		return err
 	}
